@@ -277,6 +277,12 @@ class RepoInterp:
         if isinstance(obj, S) and obj.name.startswith("mod:"):
             return S(obj.name + "." + attr)
         if isinstance(obj, S) and obj.name.startswith("class:"):
+            mn_m, _, cn_m = obj.name[len("class:"):].rpartition(".")
+            ci_m = self.repo.cls(mn_m, cn_m, required=False)
+            m_m = self.repo.method(ci_m, attr) if ci_m is not None else None
+            if m_m is not None and not isinstance(getattr(node, "ctx", None), ast.Store) and getattr(self, "class_methods_as_values", True) \
+                    and ("staticmethod" in m_m.decorators()):
+                return S("func:" + m_m.fq)  # Class.static_method as a value (an alias kept in a local)
             return S(obj.name[len("class:"):] + "." + attr)
         return None
 
